@@ -25,7 +25,7 @@ package tree
 // BlobBuilder.Reset leaves no state of the previous value behind: the tree built for a value does not depend on what
 // the (pooled) builder wrote before
 //@ func (*BlobBuilder).Reset
-//@   property C16
+//@   property C16 C12
 //@   nopanic
 //@   ensures  b.wr == nil && b.lastN == nil && b.buf == nil && b.vals == nil && b.subtrees == nil
 //@   ensures  b.topLevel == 0 && b.levelCap == 0
@@ -56,3 +56,70 @@ package tree
 //@   ensures  result1 == nil && !verif_ghost.jCalled && verif_ghost.jFirst != nil && verif_ghost.jSecond == nil ==> result0 == 1
 //@   ensures  result1 == nil && verif_ghost.jFirst == nil && verif_ghost.jSecond == nil ==> result0 == 0
 //@   also_modifies verif_ghost.jFirst, verif_ghost.jSecond, verif_ghost.jCalled, verif_ghost.jOther, verif_ghost.jCmp
+
+// ---- chunk boundaries depend only on content (C12): the key splitter
+
+// the boundary test and the key hash are deterministic functions of their arguments (floating point and xxh3 are not
+// modelled: uninterpreted)
+//@ func weibullCheck
+//@   pure
+//@   opaque
+//@ func xxHash32
+//@   pure
+//@   opaque
+
+//@ const_global levelSalt
+
+// Append: the running size grows by exactly the size of the item; below the minimum chunk size the decision is left
+// alone, above the maximum it is forced, in between it is the boundary test applied to (running size, item size, hash
+// of the key under the level's salt) and to nothing else: no other state of the splitter, no history, no address
+//@ func (*keySplitter).Append
+//@   property C12
+//@   nopanic
+//@   requires ks != nil
+//@   ensures  result == nil && ks.salt == old(ks.salt) && ks.count == old(ks.count)
+//@   ensures  ks.size == old(ks.size) + uint32(len(key)+len(value))
+//@   ensures  ks.size < 512 ==> ks.crossedBoundary == old(ks.crossedBoundary)
+//@   ensures  ks.size > 16384 ==> ks.crossedBoundary
+//@   ensures  ks.size >= 512 && ks.size <= 16384 ==> ks.crossedBoundary == weibullCheck(ks.size, uint32(len(key)+len(value)), xxHash32(key, ks.salt))
+//@   modifies *ks
+
+//@ func (*keySplitter).Reset
+//@   property C12
+//@   nopanic
+//@   requires ks != nil
+//@   ensures  ks.size == 0 && !ks.crossedBoundary && ks.salt == old(ks.salt)
+//@   modifies *ks
+
+//@ func (*keySplitter).CrossedBoundary
+//@   property C12
+//@   nopanic
+//@   requires ks != nil
+//@   ensures  result == ks.crossedBoundary
+//@   modifies nothing
+
+// newKeySplitter: a level within the salt table (the chunker never exceeds 15 levels); a fresh splitter starts at zero
+//@ func newKeySplitter
+//@   property C12
+//@   nopanic
+//@   requires level < 15
+
+// after Reset the boundary decisions of a splitter are a function of the appended (key, value) sequence and the
+// level salt only: two splitters with different pasts agree item by item
+//@ lemma verif_lemma_c12_history_independence
+//@   property C12
+//@   requires a != nil && b != nil && a != b
+
+// insertNode (merge path): when a whole subtree has to be broken down, each child is re-inserted with ITS OWN subtree
+// count (the node's count for that child), not the parent's total: the counts are part of the serialized nodes and so
+// of every hash above them
+//@ func (*Node).GetSubtreeCount
+//@   property C12
+//@   trusted event marker only (reads the i-th entry of the node's subtree-count array)
+//@   modifies nothing
+//@   ghost_set verif_ghost.gSub = result
+//@   ghost_set verif_ghost.gSubIdx = i
+//@ func insertNode
+//@   property C12
+//@   at call insertNode#2: assert arg5:uint64 == verif_ghost.gSub && verif_ghost.gSubIdx == i
+//@   also_modifies verif_ghost.gSub, verif_ghost.gSubIdx
